@@ -180,7 +180,17 @@ pub enum HostKind {
 pub fn host_of(rng: &mut Rng, o: Opts, k: HostKind) -> String {
     match k {
         HostKind::Empty => String::new(),
-        HostKind::RegName => rng.pick(&["h", "example.org", "a.b", "localhost", "x-1", "h!$&'()*+,;=", "999.1.1.1", "1.2.3"]).to_string(),
+        HostKind::RegName => {
+            if rng.chance(1, 3) {
+                let mut s = String::new();
+                for _ in 0..rng.range(1, 12) {
+                    s.push_str(rng.pick(&["a", "b", "Z", "x", "0", "9", "-", ".", "_", "~", "!", "$", "&", "'", "(", ")", "*", "+", ",", ";", "="]));
+                }
+                s
+            } else {
+                rng.pick(&["h", "example.org", "a.b", "localhost", "x-1", "h!$&'()*+,;=", "999.1.1.1", "1.2.3", "EXAMPLE.org", "H"]).to_string()
+            }
+        }
         HostKind::V4 => ipv4(rng),
         HostKind::V6 => format!("[{}]", ipv6(rng)),
         HostKind::VFuture => format!("[{}]", ipvfuture(rng)),
@@ -225,6 +235,15 @@ pub fn host(rng: &mut Rng, o: Opts) -> String {
     host_of(rng, o, k)
 }
 pub fn port(rng: &mut Rng) -> String {
+    if rng.chance(1, 3) {
+        // random digit strings, with and without leading zeros
+        let mut s = String::new();
+        let maxlen = if rng.chance(1, 10) { 40 } else { 6 };
+        for _ in 0..rng.below(maxlen) {
+            s.push(rng.pick(&['0', '0', '1', '2', '5', '8', '9']));
+        }
+        return s;
+    }
     (rng.pick(&["", "0", "80", "8080", "65535", "00080", "123456789012345678901234567890"])).to_string()
 }
 pub fn authority(rng: &mut Rng, o: Opts) -> String {
@@ -327,7 +346,13 @@ pub fn query(rng: &mut Rng, o: Opts) -> String {
         2 => "a=b&c=d".into(),
         3 => "?/:@".into(),
         4 => "x/../y".into(),
-        5 if o.iri => format!("{}{}", rng.pick(IPRIVATE), rng.pick(UCS)),
+        5 if o.iri => {
+            // iprivate is only allowed in queries
+            let base = rng.pick(&[0xE000u32, 0xF0000, 0x100000]);
+            let off = (rng.next() % 0x18FF) as u32;
+            let c = if rng.chance(1, 2) { char::from_u32(base + off).unwrap_or('\u{e000}') } else { rng.pick(IPRIVATE).chars().next().unwrap() };
+            format!("{}{}{}", c, rng.pick(UCS), rand_ucs(rng))
+        }
         _ => atoms(rng, o, 0, 4, &[":", "@", "/", "?"]),
     }
 }
